@@ -16,8 +16,8 @@ CHECKS = {
    technique="Coq proof of a worklist-closure model + extracted-model/implementation correspondence",
    design="5 C07, Appendix A"),
  "C01": dict(
-   text="Proof (emission half, plus verified per-case invariant check): for every component object satisfying the invariant WF, re-reading the emitted PIL lines through their own definitions yields exactly the nucleotides (domain, offset, orientation) of every strand and of every non-empty sequence / super-sequence, defines nothing else, drops only zero-length items, and complement views flatten to reverse complements (7 theorems, closed). WF is established for each compiled case by the verified checker wf_check; the compile model itself (dispatch, clean_const, SuperSequence incl. deferred wildcard, anonymous counter, structures, kinetics, ports) is tied to the code by correspondence on generated programs, and the denotation predicate is evaluated on the real .pil.",
-   note="Trusted: Coq kernel; extraction/driver; harness/pepper.py (AST printer with random spelling, .pil reader, Python transcription of den_src/den_pil used by the search); regex layer exercised not modelled. Partial: 'every accepted program yields a WF object' is checked per case by a proved-sound checker, not yet proved for all programs. Axioms: none.",
+   text="Proof, both halves, for every program the compile model accepts. Source to object: every sequence, super-sequence, strand, structure and kinetic statement is present in the final object under its name with its flag / bound / strand order; the item list of every composite is the written item list in written order (references keep their star, domains() is replaced in place, each quoted region becomes a fresh anonymous sequence at its written position, a declared length is met exactly); later statements never drop or change an earlier definition. Object invariant: every accepted program yields an object satisfying WF and WF2 (induction over the statements, incl. the deferred wildcard, register and the anonymous counter). Object to PIL: re-reading the emitted lines through their own definitions yields exactly the nucleotides (domain, offset, orientation) of every strand and every non-empty sequence / super-sequence, defines nothing else, and complement views flatten to reverse complements (14 theorems, closed). The compile model is tied to the code by correspondence on generated programs, the verified checker wf_check re-establishes WF per case, and the denotation predicate is evaluated on the real .pil.",
+   note="Trusted: Coq kernel; extraction/driver; harness/pepper.py (AST printer with random spelling, .pil reader, Python transcription of den_src/den_pil used by the search); regex layer exercised not modelled. Hypothesis of the invariant theorem: user sequence names do not start with the reserved prefix _Anon (decidable, stated in the theorem). Axioms: none.",
    technique="Coq proof about the emit/re-read model + extracted-model/implementation correspondence",
    design="5 C01"),
  "C08": dict(
@@ -26,13 +26,13 @@ CHECKS = {
    technique="Coq proofs on the notation model + extracted-model/implementation correspondence",
    design="5 C08"),
  "C10": dict(
-   text="Proof: for one '?' and a declared length L >= the other parts the wildcard takes exactly L - sum, the result has length L and equals the explicit spelling; parts keep written order and multiplicity; more than one wildcard, a wildcard without length, a negative remainder and a length mismatch are all errors; in a composite the deferred '?' region lands at its written index in both the item list and the flattened base-sequence list and two '?' regions are rejected (6 theorems, closed). Correspondence over constraint lists x declared lengths, incl. compiling each single-wildcard case in its explicit spelling and reading seqs/base_seqs back from the .save.",
+   text="Proof: for one '?' and a declared length L >= the other parts the wildcard takes exactly L - sum, the result has length L and equals the explicit spelling; parts keep written order and multiplicity; more than one wildcard, a wildcard without length, a negative remainder and a length mismatch are all errors; in a composite the deferred '?' region lands at its written index in both the item list and the flattened base-sequence list, takes exactly what the other items (compiled on their own) leave so that the total is the declared length, every other item keeps its written place and multiplicity, and two '?' regions are rejected (8 theorems, closed). Correspondence over constraint lists x declared lengths, incl. compiling each single-wildcard case in its explicit spelling and reading seqs/base_seqs back from the .save.",
    note="Trusted: Coq kernel; extraction/driver; harness/pepper.py printers/readers; pickle for the object read-back. Equality with the explicit spelling of a composite 'up to anonymous numbering' is checked by correspondence, the position theorem is proved. Axioms: none.",
    technique="Coq proofs on the wildcard model + extracted-model/implementation correspondence",
    design="5 C10"),
  "C09": dict(
-   text="Proof: the emission of every component object satisfying the invariants WF and WF2 passes the executable well-formedness predicate wf_pil (unique earlier definitions, resolved length = declared length for every sequence / super-sequence / strand, every structure balanced with one segment per strand of that strand's length, kinetics over defined structures); the checkers establishing WF/WF2 per compiled case are proved sound; every structure any notation compiles to is balanced, also after domain-level expansion (5 theorems, closed). wf_pil, extracted from Coq, is evaluated on the real .pil of every accepted AST mutant, token-level text mutant and wrong-arity instantiation; AST mutants are also compared model vs implementation (accept/reject and output).",
-   note="Trusted: Coq kernel; extraction/driver; harness mutators, printer and .pil reader. Partial: 'accepted => WF/WF2' is checked per case by proved-sound checkers, not yet proved for all programs; .sys-level clauses (instance arity) are exercised for component templates only here and for systems in C02. Axioms: none.",
+   text="Proof: the emission of every component object satisfying the invariants WF and WF2 passes the executable well-formedness predicate wf_pil (unique earlier definitions, resolved length = declared length for every sequence / super-sequence / strand, every structure balanced with one segment per strand of that strand's length, kinetics over defined structures); every program the compile model accepts yields such an object, so whatever is accepted emits a document passing wf_pil (end-to-end theorem); the per-case checkers are proved sound as well; every structure any notation compiles to is balanced, also after domain-level expansion (7 theorems, closed). wf_pil, extracted from Coq, is evaluated on the real .pil of every accepted AST mutant, token-level text mutant and wrong-arity instantiation; AST mutants are also compared model vs implementation (accept/reject and output).",
+   note="Trusted: Coq kernel; extraction/driver; harness mutators, printer and .pil reader. .sys-level clauses (instance arity) are exercised for component templates only here and for systems in C02. Axioms: none.",
    technique="Coq proof that emission satisfies an executable well-formedness predicate + mutation correspondence",
    design="5 C09"),
  "C14": dict(
@@ -41,19 +41,19 @@ CHECKS = {
    technique="Coq proofs on the emission model + pairwise differential correspondence through compiler, designer front-end and finisher",
    design="5 C14"),
  "C04": dict(
-   text="Proof (partial, at the level of the link graph seeded by Convert.get_constraints over strand positions and auxiliary sequence nodes): the closure step is exact and never asserts (reusing C07), every equality / complement representative is the least position of its parity class, two positions share an equality representative iff they are forced equal, the complement representative equals the equality representative of the complementary class and is absent iff nothing is forced complementary, and the strand layout obeys its formula (7 theorems, closed). The line-by-line designer model (PIL loading, both layouts, seeding, closure, template propagation, representatives, dump) is compared with the real front-end on compiler-emitted and hand-written documents in both layouts, and both are compared with an independent denotation-level oracle (parity union-find over base nucleotides, no auxiliary nodes).",
-   note="Partial: that the closure over auxiliary nodes restricted to positions equals the closure of the document's denotation, and the template-intersection clause, are decided per case by the oracle, not proved. Hypothesis graph_closed is evaluated per case by the extracted checker. Trusted: Coq kernel; extraction/driver; harness/pepper.py (document generator/printer, spec_arrays oracle). Axioms: none.",
+   text="Proof (at the level of the link graph seeded by Convert.get_constraints over strand positions and auxiliary sequence nodes): the closure step is exact and never asserts (reusing C07), every equality / complement representative is the least position of its parity class, two positions share an equality representative iff they are forced equal, the complement representative equals the equality representative of the complementary class and is absent iff nothing is forced complementary, every position's base code denotes exactly the intersection of the templates of its equality class and the complements of the templates of its complementary class, blank slots are exactly the uninitialised ones, once seeded the generation either returns arrays or reports over-constraint, and the strand layout obeys its formula (9 theorems, closed). The line-by-line designer model (PIL loading, both layouts, seeding, closure, template propagation, representatives, dump) is compared with the real front-end on compiler-emitted and hand-written documents in both layouts, and both are compared with an independent denotation-level oracle (parity union-find over base nucleotides, no auxiliary nodes).",
+   note="Not proved in Coq: that connectivity through the auxiliary nodes, restricted to positions, equals the equalities forced by the document's denotation; decided per case by the oracle. Hypothesis graph_ok (links between initialised nodes, template table keyed by the nodes, templates are codes) is evaluated per case by the extracted checker. Trusted: Coq kernel; extraction/driver; harness/pepper.py (document generator/printer, spec_arrays oracle). Axioms: none.",
    technique="Coq proofs over the seeded link graph + three-way correspondence (model, implementation, denotation oracle)",
    design="5 C04"),
  "C15": dict(
-   text="Proof (partial): whenever the model's template propagation succeeds, no initialised node is forced complementary to itself, i.e. every odd cycle (hairpin pairing a domain with itself, starred equal chains over odd-length domains) is reported; the closure underneath is exact (2 theorems, closed). Correspondence on documents about half of which are unsatisfiable (planted hairpins, long odd cycles, template clashes inside repeated sequences and across equal lines): the implementation must raise the over-constrained error exactly when the denotation-level satisfiability oracle finds no assignment, in both layouts.",
-   note="Partial: the template-conflict half (success => a satisfying assignment exists; empty intersection => failure) is decided per case by the oracle, not proved. Trusted: as C04. Axioms: none.",
-   technique="Coq proof (odd cycles) + satisfiability-oracle correspondence",
+   text="Proof: for every document whose seeded link graph passes graph_ok, constraint generation reports over-constraint exactly when no nucleotide assignment satisfies every template and every equal / complementary link (both directions: a satisfying assignment is constructed from a successful run, and any assignment forces success), it otherwise returns arrays, and the only reasons for the report are a node forced complementary to itself (any odd cycle) or a class with no common base (6 theorems, closed). Correspondence on documents about half of which are unsatisfiable (planted hairpins, long odd cycles, template clashes inside repeated sequences and across equal lines): the implementation must raise the over-constrained error exactly when the denotation-level satisfiability oracle finds no assignment, in both layouts.",
+   note="Satisfiability is stated over the seeded link graph (positions plus auxiliary nodes); its agreement with the document's denotation is decided per case by the oracle. Trusted: as C04. Axioms: none.",
+   technique="Coq proof (failure iff unsatisfiable, over the seeded link graph) + satisfiability-oracle correspondence",
    design="5 C15"),
  "C05": dict(
-   text="Proof (partial, representative level): for every exact closure table the equality representative of a nucleotide position is defined, idempotent and at most the position; the complement representative is itself a representative and its own complement representative is the position's equality representative (5 theorems, closed). Per case: design(just_files=True) in both layouts, file contents compared with the model's eq_map/wc_map/st_map output, the Coq-extracted predicate contract_ok evaluated on the real files, a separator/layout check, and two runs of an ASan/UBSan spuriousSSM built from the working tree which must exit 0 without ERROR or sanitizer report.",
-   note="Partial: template clauses of the contract and acceptance by the C program are checked per case, not proved (no C semantics installed). Trusted: as C04 plus clang sanitizers. Axioms: none.",
-   technique="Coq proofs on representatives + extracted contract predicate on real files + sanitised binary acceptance",
+   text="Proof: for every exact closure table the equality representative of a nucleotide position is defined, idempotent and at most the position; the complement representative is itself a representative and its own complement representative is the position's equality representative; positions forced equal carry identical template codes and positions forced complementary carry complementary codes (6 theorems, closed). Per case: design(just_files=True) in both layouts, file contents compared with the model's eq_map/wc_map/st_map output, the Coq-extracted predicate contract_ok evaluated on the real files, a separator/layout check, and two runs of an ASan/UBSan spuriousSSM built from the working tree which must exit 0 without ERROR or sanitizer report.",
+   note="The file encoding (1-based, separators) and acceptance by the C program are checked per case, not proved (no C semantics installed). Trusted: as C04 plus clang sanitizers. Axioms: none.",
+   technique="Coq proofs on representatives and template codes + extracted contract predicate on real files + sanitised binary acceptance",
    design="5 C05"),
  "C13": dict(
    text="Proof: on the character-level model of process_list, brace duplication of any line (any number of groups, any number of alternatives incl. empty ones, arbitrary surrounding text) equals the declarative hand expansion -- the cartesian product of the alternatives with the leftmost group varying slowest and all other text untouched -- also with the fuel the model actually uses; and <expression> replacement equals segment-wise substitution of the decimal values, left to right (3 theorems, closed). Both loaders consume only process_list's text, so compile(template,args) = compile(expansion) follows by congruence; this last step and the text-level behaviour are checked by correspondence: process_list vs model vs hand expansion on free-form templates, and compile(template,args) vs compile(hand-expanded file) on well-formed ones.",
